@@ -23,6 +23,9 @@ STR_ALPHA = {
     'latin': 'a\xe9\xff\xf1',
     'bmp': '\u20ac\u4e2d\u0301\ufffda',
     'astral': '\U0001f600\U0001d11e\U0010ffffa',
+    # U+FEFF as ordinary content (text taken from BOM-prefixed files): dense, so that in a multi-chunk file one of them is the
+    # first character of a 64 KiB read chunk
+    'bom': '\ufeff\ufeff\ufeff\ufeffa',
 }
 
 
@@ -118,7 +121,7 @@ class C19(Check):
             'Object counts 0, 1, few, and enough to fill 1..5 read chunks of 64 KiB. non-trivial = >= 2 objects; distinct = hash of the case')
     ASSUMPTIONS = ['orjson / json are trusted as JSON codecs; floats are finite; top-level items are dicts (domain of the property)']
     ANCHORS = ['rxsci/container/json.py', 'rxsci/io/file.py', 'rxsci/framing/line.py', 'rxsci/data/codec.py']
-    REQUIRED_TAGS = ['none', 'gzip', 'zstd', 'stream', 'path', 'fileobj', 'open_obj', 'empty', 'multi-chunk', 'astral', 'whole-document', 'over-1MiB-compressible', 'gzip-ratio>32-over-2MiB', 'pushed-source', 'open_obj-with-short-reads']
+    REQUIRED_TAGS = ['none', 'gzip', 'zstd', 'stream', 'path', 'fileobj', 'open_obj', 'empty', 'multi-chunk', 'astral', 'whole-document', 'over-1MiB-compressible', 'gzip-ratio>32-over-2MiB', 'pushed-source', 'open_obj-with-short-reads', 'bom']
     REQUIRED_OBSERVED = ['objects_compared', 'twin_dumps_read_back']
 
     def __init__(self):
@@ -159,9 +162,13 @@ class C19(Check):
             else:
                 cnt = rng.randint(300, 1200)
             alpha = rng.choice(list(STR_ALPHA) + ['mixed'])
+            if shape >= 6 and (k // 8) % 3 == 0:
+                alpha = 'bom'       # (a multi-chunk file full of U+FEFF)
             if k < 10:
                 alpha = ['astral', 'special', 'bmp', 'latin', 'plain'][k % 5]
             long = rng.choice([0, 0, 300, 3000]) if shape >= 4 else 0
+            if alpha == 'bom':
+                long = 3000
             yield {'objs': {'n': cnt, 'alpha': alpha, 'maxstr': rng.choice([3, 20, 200]), 'pad': k % 4,
                             'long': long, 'oseed': rng.randrange(1 << 30), 'fields': rng.choice([1, 4, 8])},
                    'compression': comps[k % 3], 'mode': modes[(k // 3) % 6]}
